@@ -273,6 +273,21 @@ def execute(sc, ctx):
         if cfg["shared_odb"]:
             shared["odb"] = w.odb("cache", "local", state=shared["state"], tmp_dir=tmp_dir)
 
+    import traceback as _tb
+
+    import dvc_data.hashfile.transfer as tmod
+
+    real_log = tmod._log_exception
+    err_log = {}
+
+    def logging_log_exception(oid, exc):
+        frames = _tb.extract_tb(exc.__traceback__)
+        inner = next((f.name for f in reversed(frames) if "dvc_objects" in f.filename or "dvc_data" in f.filename), "?")
+        err_log.setdefault(seam.actor(), []).append(f"{type(exc).__name__}:{inner}")
+        return real_log(oid, exc)
+
+    tmod._log_exception = logging_log_exception
+
     def writer(i):
         def run():
             from dvc_data.hashfile.build import build
@@ -290,7 +305,8 @@ def execute(sc, ctx):
             r = transfer(staging, odb, {obj.hash_info}, shallow=False, hardlink=cfg["hardlink"], jobs=cfg["jobs"])
             if cfg["mode"] != "thread":
                 state.close()
-            return {"oid": obj.hash_info.value, "failed": sorted(h.value for h in r.failed)}
+            return {"oid": obj.hash_info.value, "failed": sorted(h.value for h in r.failed),
+                    "errors": sorted(set(err_log.get(seam.actor(), [])))}
 
         return run
 
@@ -324,6 +340,7 @@ def execute(sc, ctx):
     variant = ("uid:" if uid else "") + cfg["mode"]
 
     # ---- oracle ---------------------------------------------------------
+    reported_failure_causes = set()
     for name in names:
         if name in sch.errors:
             et, er, tb = sch.errors[name]
@@ -336,17 +353,22 @@ def execute(sc, ctx):
         if res["failed"]:
             objs_now, _ = model.raw_store_listing(w.p("cache"))
             present_ok = all(o in objs_now and model.check_object(o, objs_now[o]) is None for o in res["failed"])
+            causes = "+".join(res.get("errors", [])) or "?"
+            reported_failure_causes.update(res.get("errors", []))
             ctx.violate(
                 "transfer-failed",
-                f"{variant}:{cfg['reflink']}:{'object-present' if present_ok else 'object-absent'}",
-                f"{name} reported failed={[model.short(o) for o in res['failed']]}",
+                f"{variant}:{cfg['reflink']}:{causes}",
+                f"{name} reported failed={[model.short(o) for o in res['failed']]} "
+                f"({'all present and intact in the final store' if present_ok else 'some absent in the final store'}); "
+                f"upload errors: {res.get('errors')}",
             )
         if res["oid"] != want_dir[name]:
             ctx.violate("wrong-dir-id", variant, f"{name}: {res['oid']} != {want_dir[name]}")
     objs, tmps, modes = model.raw_store_listing(w.p("cache"), with_mode=True)
     for oid, data in sorted(expected.items()):
         if oid not in objs:
-            ctx.violate("object-missing", variant, model.short(oid))
+            after = (":after:" + "+".join(sorted(reported_failure_causes))) if reported_failure_causes else ""
+            ctx.violate("object-missing", f"{variant}:{cfg['reflink']}{after}", model.short(oid))
         elif objs[oid] != data:
             ctx.violate("object-wrong-bytes", variant, f"{model.short(oid)} len={len(objs[oid])} want={len(data)}")
     for oid in sorted(set(objs) - set(expected)):
